@@ -506,9 +506,10 @@ func registerIntercepts(g *Engine) {
 			lo = e.lastNow
 		}
 		hi := t.Const(64, 1<<61)
-		if e.lastNow != nil {
+		if e.lastNow != nil && !e.lastNowInit {
 			hi = t.Bin(OAdd, e.lastNow, t.Const(64, 1_000_000)) // successive readings within one step: <= 1 ms apart
 		}
+		e.lastNowInit = e.inInit // the process may have run for any time since package initialisation
 		e.assume(t.BAnd(t.Cmp(OSle, lo, ext), t.Cmp(OSle, ext, hi)))
 		e.lastNow = ext
 		return StructVal{t.Const(64, 1<<63), ext, PtrVal{}}
@@ -560,6 +561,57 @@ func registerIntercepts(g *Engine) {
 			return e.tb.Const(64, uint64(1<<63-1))
 		}
 		return e.passthrough(fn, a)
+	}
+
+	// timers: a timer channel is "ready" for the next select a scripted number
+	// of times (verifTimerTicks); AfterFunc callbacks never fire on their own.
+	newTimer := func(e *Exec, fn *ssa.Function) (Value, *Loc) {
+		tt := fn.Signature.Results().At(0).Type().(*types.Pointer).Elem()
+		l := e.newLoc(tt)
+		ch := &ChanObj{cap: 1, et: e.namedType("time", "Time"), timer: true}
+		l.sub[0].v = ChanVal{ch}
+		return PtrVal{loc: l}, l
+	}
+	ic["time.NewTimer"] = func(e *Exec, fn *ssa.Function, a []Value) Value {
+		v, _ := newTimer(e, fn)
+		return v
+	}
+	ic["time.AfterFunc"] = func(e *Exec, fn *ssa.Function, a []Value) Value {
+		v, l := newTimer(e, fn)
+		e.afterFuncs = append(e.afterFuncs, afterFunc{l, a[1].(FuncVal)})
+		return v
+	}
+	ic["(*time.Timer).Stop"] = func(e *Exec, fn *ssa.Function, a []Value) Value { return e.tb.True() }
+	ic["(*time.Timer).Reset"] = func(e *Exec, fn *ssa.Function, a []Value) Value { return e.tb.True() }
+	ic["verif:verifTimerTicks"] = func(e *Exec, fn *ssa.Function, a []Value) Value {
+		e.timerTicks = e.concreteInt(a[0])
+		return nil
+	}
+	// verifRunUntilBlocked(f): run f; a blocking operation with nothing ready
+	// returns control to the harness (the goroutine would park there).
+	ic["verif:verifRunUntilBlocked"] = func(e *Exec, fn *ssa.Function, a []Value) (ret Value) {
+		saved, depth := e.curFrame, e.depth
+		defer func() {
+			if r := recover(); r != nil {
+				if pe, ok := r.(pathEnd); ok && pe.kind == EndDeadlock {
+					e.curFrame, e.depth = saved, depth
+					ret = nil
+					return
+				}
+				panic(r)
+			}
+		}()
+		e.callFuncVal(a[0].(FuncVal), nil, e.curFrame)
+		return nil
+	}
+	// verifFireAfterFuncs: run the callbacks registered with time.AfterFunc (expiry).
+	ic["verif:verifFireAfterFuncs"] = func(e *Exec, fn *ssa.Function, a []Value) Value {
+		fs := e.afterFuncs
+		e.afterFuncs = nil
+		for _, f := range fs {
+			e.callFuncVal(f.fn, nil, e.curFrame)
+		}
+		return e.tb.Const(64, uint64(len(fs)))
 	}
 
 	// ----- pion/stun crypto: contracts instead of HMAC-SHA1 / random ids -----
@@ -728,6 +780,11 @@ func (e *Exec) concreteKey(v Value) string {
 		return s + "}"
 	}
 	panic(e.unsupported(fmt.Sprintf("unique.Make of %T", v)))
+}
+
+type afterFunc struct {
+	timer *Loc
+	fn    FuncVal
 }
 
 type crcRec struct {
